@@ -328,7 +328,7 @@ pub fn run(ctx: &mut Ctx) {
                 ctx.count(&format!("ints.{}", st_name(st)), ints.len() as u64);
                 ctx.case_done(mix(&[fnv(st_name(st).as_bytes()), 1000 + idx]), true);
             });
-            let total = ctx.q(16, 800);
+            let total = ctx.q(100, 2000);
             ctx.cases(&format!("uniform.{}", st_name(st)), total, |ctx, idx| {
                 let ints: Vec<u128> = (0..chunk).map(|_| ctx.rng.next_u128() & mask(w)).collect();
                 check_ints(ctx, st, &ints);
@@ -338,7 +338,7 @@ pub fn run(ctx: &mut Ctx) {
         }
     }
     // Phase B: bit arrays of every length 1..70 (several fillings each), ragged shapes
-    let reps = ctx.q(8, 200);
+    let reps = ctx.q(40, 600);
     ctx.cases("bits", 70 * reps, |ctx, idx| {
         let n = (idx % 70 + 1) as usize;
         let bits: Vec<u128> = match (idx / 70) % 4 {
@@ -366,7 +366,7 @@ pub fn run(ctx: &mut Ctx) {
         std::fs::create_dir_all(&d).ok();
         std::fs::File::create(format!("{}/c13_json_{}.jsonl", d, ctx.shard)).unwrap()
     });
-    let total = ctx.q(2400, 60000);
+    let total = ctx.q(24000, 400000);
     ctx.cases("json", total, |ctx, idx| {
         let depth = (idx % 5) as u32;
         let t = rand_nested_type(&mut ctx.rng, depth);
